@@ -80,10 +80,35 @@ def ref(mode, text):
         return 'unsupported', None
     if mode in LIST_MODES and _only_trivia(text):
         return 'ok', []   # "zero or more"
+    if _brackets_unbalanced(text):
+        return 'invalid', None   # text that closes / opens a bracket of its own can only be valid by merging with an embedding: never a fragment of any kind
     try:
         return f(text)
     except RecursionError:
         return 'unsupported', None
+
+
+def _brackets_unbalanced(text):
+    """True when the text's own bracket tokens do not nest properly (decided by CPython's tokenizer, so brackets inside strings and comments do not count)."""
+    import io
+    import tokenize
+    depth = 0
+    try:
+        for t in tokenize.generate_tokens(io.StringIO(text).readline):
+            if t.type == tokenize.OP:
+                if t.string in '([{':
+                    depth += 1
+                elif t.string in ')]}':
+                    depth -= 1
+                    if depth < 0:
+                        return True
+    except tokenize.TokenError as e:
+        msg = str(e)
+        return depth != 0 or 'unmatched' in msg or 'does not match' in msg or 'was never closed' in msg
+    except (IndentationError, SyntaxError) as e:
+        msg = str(e)
+        return 'unmatched' in msg or 'does not match' in msg or 'was never closed' in msg
+    return depth != 0
 
 
 def _one(nodes):
@@ -241,7 +266,10 @@ def _ref_case(text):
 
 def _ref_pattern(text):
     def ex(m):
-        return [m.body[0].cases[0].pattern]
+        c = m.body[0].cases[0]
+        if c.guard is not None or len(m.body) != 1 or len(m.body[0].cases) != 1 or len(c.body) != 1 or not isinstance(c.body[0], ast.Pass):
+            raise AssertionError('merged')   # the text supplied a guard / case body of its own: not a pattern
+        return [c.pattern]
     st, nodes = _wrap('match _:\n case (', ' ): pass', ex, text, 2)
     if st != 'ok':
         # a lone star pattern is a pattern node (MatchStar) valid only inside a sequence: judged through that embedding
